@@ -120,10 +120,9 @@ func (e *eventRingBuffer) getEventsFromID(id uint64, count uint64) ([]*si.EventR
 		}
 		// second range only if still events left to fetch
 		var r2 *eventRange
-		end = pos + count - e.capacity
-		if end > 0 {
+		if pos+count > e.capacity {
 			// never fetch pass the current head
-			end = min(end, e.head)
+			end = min(pos+count-e.capacity, e.head)
 			r2 = &eventRange{
 				start: 0,
 				end:   end,
